@@ -152,6 +152,11 @@ def variants(spec: dict, tier: str) -> t.Iterator[t.Tuple[str, dict]]:
         sp = json.loads(json.dumps(spec))
         sp['nodes'][n]['generic'] = True
         yield f'generic-{n}', sp
+    if len(gen_ok) >= 2:
+        sp = json.loads(json.dumps(spec))
+        for n in gen_ok:
+            sp['nodes'][n]['generic'] = 'SharedBase'
+        yield 'generic-shared-base', sp
     # unnamed switches (uuid-suffixed ids)
     if 'switch' in S.kinds_used(spec):
         sp = json.loads(json.dumps(spec))
